@@ -314,3 +314,87 @@ def candidates(rule, snap, T, rng):
         for v in pool:
             out.append((f, v))
     return out
+
+
+# ---------------------------------------------------------------------------------------------- what changed in the source?
+CUSTOM_FULL = {"label": "composeinfo.Compose._validate_label:verify_label(self.label)", "ci_uid": "composeinfo.Variant._validate_uid",
+               "ci_parent_arch": "composeinfo.Variant._validate_parent_arch", "variant_keys": "composeinfo.VariantBase._validate_variants",
+               "disc_timestamp": "discinfo.DiscInfo._validate_timestamp", "ti_checksum_paths": "treeinfo.Checksums._validate_checksum_paths",
+               "ti_image_paths": "treeinfo.Images._validate_image_paths", "ti_platforms": "treeinfo.Images._validate_platforms",
+               "ti_uid": "treeinfo.Variant._validate_uid"}
+
+
+def _norm_cond(c):
+    k = c["k"]
+    if k in ("truthy", "notNone"):
+        return [k.lower(), c["f"]]
+    if k == "reMatch":
+        return ["rematch", c["p"], c["f"]]
+    if k == "startsWith":
+        return ["startswith", c["f"], c["pre"]]
+    if k == "contains":
+        return ["contains", c["f"], c["c"]]
+    if k == "not":
+        return ["not", _norm_cond(c["c"])]
+    if k == "and":
+        return ["and", _norm_cond(c["a"]), _norm_cond(c["b"])]
+    return ["?", c]
+
+
+def norm_generated(j):
+    """a rule of generated.json -> comparable form"""
+    k = j["k"]
+    if k == "type":
+        return ["type", j["f"], list(j["types"])]
+    if k == "value":
+        return ["value", j["f"], list(j["table"])]
+    if k == "notBlank":
+        return ["nb", j["f"]]
+    if k == "re":
+        return ["re", j["f"], list(j["patterns"])]
+    if k == "failIf":
+        return ["failif", _norm_cond(j["c"])]
+    if k == "guarded":
+        return ["guard", _norm_cond(j["c"]), norm_generated(j["r"])]
+    if k == "custom":
+        return ["custom", j["name"]]
+    return ["?", j]
+
+
+def norm_catalogue(r, T):
+    def cond(c):
+        c = list(c)
+        if c[0] in ("not",):
+            return ["not", cond(c[1])]
+        if c[0] == "and":
+            return ["and", cond(c[1]), cond(c[2])]
+        return c
+    k = r[0]
+    if k == "type":
+        return ["type", r[1], list(r[2])]
+    if k == "value":
+        return ["value", r[1], list(T[r[2]])]
+    if k in ("nb",):
+        return ["nb", r[1]]
+    if k == "re":
+        return ["re", r[1], list(r[2])]
+    if k == "failif":
+        return ["failif", cond(r[1])]
+    if k == "guard":
+        return ["guard", cond(r[1]), norm_catalogue(r[2], T)]
+    if k == "custom":
+        return ["custom", CUSTOM_FULL[r[1]]]
+    return ["?"]
+
+
+def suspects(generated, T):
+    """(class, rule) pairs of the catalogue that the validator inventory regenerated from the source no longer contains verbatim:
+    where a failing input has to be looked for first (DESIGN section 6: targeted generators derived from what changed)"""
+    out = []
+    classes = (generated.get("validators") or {}).get("classes", {})
+    for cls, rules in CATALOGUE.items():
+        gen = [norm_generated(j) for m in classes.get(cls, []) for j in m["rules"]]
+        for r in rules:
+            if norm_catalogue(r, T) not in gen:
+                out.append((cls, r))
+    return out
